@@ -113,6 +113,8 @@ def gen_ops(rng, n, tier):
             if k == 0:
                 continue
             i = rng.randint(0, k - 1); c['i'] = i; c['j'] = rng.randint(i, k - 1)
+            if rng.random() < 0.3:                  # indices counted from the end, as everywhere else in the library (track[-1], getObs(-1)): "the last m observations"
+                c['i'] -= k; c['j'] -= k
         elif op == 'mod':
             c['s'] = rng.randint(1, 5)
         elif op == 'pat':
@@ -198,7 +200,7 @@ def coq_ops(case, obs):
     elif op == 'lt':
         e = 'op_lt nat %s (%d)%%Z' % (base, case['a'])
     elif op == 'ex':
-        e = 'extract nat %s %d %d' % (base, case['i'], case['j'])
+        e = 'extract nat %s %d %d' % (base, case['i'] % k, case['j'] % k)
     elif op == 'mod':
         e = 'op_mod nat %s %d' % (base, case['s'])
     elif op == 'pat':
@@ -224,7 +226,7 @@ def oracle_ops(case, obs):
     elif op == 'lt':
         exp = src[:max(0, k - case['a'])]
     elif op == 'ex':
-        exp = src[case['i']:case['j'] + 1]
+        exp = src[case['i'] % k:case['j'] % k + 1]
     elif op == 'mod':
         exp = src[::case['s']]
     elif op == 'pat':
